@@ -613,6 +613,107 @@ def check(model: Model, run: Run) -> None:
     if n6 < 1:
         run.cannot('no function recording tokeniser.afi found')
 
+    # ------------------------------------------------------------------ R10 a flow value fits the octets of its component
+    run.rule(
+        'C18.R10',
+        'the value of a FlowSpec operator written in text fits the widest encoding of its component (VALUE_SIZES: one octet for '
+        'protocol / icmp / dscp / traffic-class, two for ports / lengths / flags, four for the flow label): the component built by '
+        '_generic_condition takes its value through a test against klass.VALUE_SIZES that raises; the per-keyword converters accept '
+        'up to 65535 for one-octet fields',
+        floor=2,
+    )
+    _r10_flow_value_width(model, run)
+
+    # ------------------------------------------------------------------ R11 nothing written is silently left out
+    run.rule(
+        'C18.R11',
+        'a value that is written is carried or refused, never dropped: the flow source / destination parsers yield or raise on every '
+        'path (no if / elif chain that falls off its end), and a range test whose in-range branch collects the value has an else '
+        '(or a raise) for the out-of-range case',
+        floor=3,
+    )
+    _r11_no_silent_drop(model, run, folder)
+
+    # ------------------------------------------------------------------ R12 exact sizes of raw values
+    run.rule(
+        'C18.R12',
+        'an extended community given in hexadecimal is 8 octets: _extended_community_hex is evaluated on a 2 octet and a 9 octet '
+        'value and must refuse both (a 9 octet value was cut to 8, a 2 octet one sent as a 2 octet attribute)',
+        floor=2,
+    )
+    _r12_hex_sizes(model, run, folder)
+
+
+def _r10_flow_value_width(model: Model, run: Run) -> None:
+    from ..alpha import facts
+
+    gc = model.func('exabgp.configuration.flow.parser._generic_condition')
+    run.analysed(gc)
+    gl = Loc(model, gc)
+    kparam = gc.node.args.args[1].arg if len(gc.node.args.args) > 1 else 'klass'
+    sites = [c for c in walk_no_nested(gc.node) if isinstance(c, ast.Call) and isinstance(c.func, ast.Name) and c.func.id == kparam and len(c.args) == 2]
+    if len(sites) < 2:
+        run.cannot('_generic_condition: fewer than 2 constructions of the component (%d)' % len(sites))
+        return
+    for c in sites:
+        v = c.args[1]
+        bounded = any('VALUE_SIZES' in f for f in facts(gl, c))
+        if not bounded and isinstance(v, ast.Call):
+            for q in model.callees(gc.module, v):
+                h = model.funcs.get(q)
+                if h is None or h.module is not gc.module:
+                    continue
+                run.analysed(h)
+                hl = Loc(model, h)
+                for r in walk_no_nested(h.node):
+                    if isinstance(r, ast.Return) and r.value is not None and any('VALUE_SIZES' in f for f in facts(hl, r)):
+                        bounded = True
+        run.check(bounded, gc.qualname, 'the value of %s is tested against the widths of the component' % norm(c)[:60], gc.loc(c), 'klass.converter accepts what the keyword allows (0 to 65535 for every protocol / icmp / traffic-class name table), the encoder of a one octet component raises ValueError on 256: `protocol 256` is accepted and can not be sent')
+
+
+def _r11_no_silent_drop(model: Model, run: Run, folder: Folder) -> None:
+    from ..cfg import CFG
+
+    # (a) generator parsers without a loop: every path yields or raises
+    for q in ('exabgp.configuration.flow.parser.source', 'exabgp.configuration.flow.parser.destination'):
+        fi = model.func(q)
+        run.analysed(fi)
+        cfg = CFG(fi.node)
+        targets = {n.id for n in cfg.nodes if n.ast is not None and n.kind == 'stmt' and (isinstance(n.ast, ast.Raise) or any(isinstance(x, (ast.Yield, ast.YieldFrom)) for x in walk_no_nested(n.ast)))}
+        ok, path = cfg.all_paths_pass(cfg.entry.id, targets, {cfg.exit.id}, skip_labels=('exc',))
+        run.check(ok, q, 'every path yields a component or raises', fi.loc(), 'a path reaches the end without a yield: text that matches none of the forms (`source 10.0.0/24`) is accepted and the component is left out - the rule sent is broader than the one written: %s' % ' -> '.join(cfg.describe_path(path)[-4:]) if not ok else '')
+    # (c) in-range test without an out-of-range branch
+    n = 0
+    for fi in sorted(model.funcs_in('exabgp/configuration/'), key=lambda f: f.qualname):
+        if not fi.module.rel.startswith(('exabgp/configuration/static/', 'exabgp/configuration/flow/', 'exabgp/configuration/l2vpn/', 'exabgp/configuration/announce/')):
+            continue
+        for st in walk_no_nested(fi.node):
+            if not (isinstance(st, ast.If) and isinstance(st.test, ast.Compare) and len(st.test.ops) == 1 and isinstance(st.test.ops[0], (ast.Lt, ast.LtE))):
+                continue
+            lim = folder.fold(st.test.comparators[0], fi.module, fi.cls)
+            if not (isinstance(lim, int) and not isinstance(lim, bool) and lim >= 255) or folder.fold(st.test.left, fi.module, fi.cls) is not UNKNOWN:
+                continue
+            collects = any(isinstance(x, ast.Call) and isinstance(x.func, ast.Attribute) and x.func.attr in ('append', 'add', 'extend') for b in st.body for x in walk_no_nested(b)) or any(isinstance(b, (ast.Assign, ast.AugAssign)) for b in st.body)
+            if not collects or any(isinstance(x, (ast.Raise, ast.Return)) for b in st.body for x in walk_no_nested(b)):
+                continue
+            n += 1
+            run.analysed(fi)
+            run.check(bool(st.orelse), fi.qualname, 'in-range branch `%s` has an out-of-range branch' % norm(st.test), fi.loc(st), 'a value at or above the limit is neither collected nor refused: the definition is accepted without it')
+    if n < 1:
+        run.cannot('no in-range test collecting a value found in the route text parsers')
+
+
+def _r12_hex_sizes(model: Model, run: Run, folder: Folder) -> None:
+    from ..evalfn import Raised, eval_function
+
+    fi = model.func('exabgp.configuration.static.parser._extended_community_hex')
+    run.analysed(fi)
+    p0 = fi.node.args.args[0].arg
+    for label, text, want_refused in (('2 octets', '0x0002', True), ('9 octets', '0x0002fde80000000100', True), ('8 octets', '0x0002fde800000001', False)):
+        r = eval_function(folder, fi, {p0: text}, outcomes=True)
+        refused = isinstance(r, Raised)
+        run.check(refused == want_refused, fi.qualname, 'hexadecimal extended community of %s: %s' % (label, 'refused' if refused else 'not refused by the length test'), fi.loc(), 'an extended community is 8 octets: a longer value is cut by the decoder it is handed to, a shorter one is sent as it is and can not be printed')
+
 
 # (function, operand) -> why the packed operand is in range although no guard shows it
 PACK_TRIAGED: dict[tuple[str, str], str] = {}
